@@ -1,7 +1,20 @@
-//! C17: lkh_optimize, dbscan::create_clusters, create_kmedoids, create_hierarchical_kmedoids on the real code.
+//! C17: lkh_optimize, dbscan::create_clusters, create_kmedoids, create_hierarchical_kmedoids on the real code, plus the
+//! job-/location-level wrappers the solver uses: construction::clustering::dbscan::create_job_clusters (also through
+//! Jobs::new -> Jobs::clusters(), the path of the cluster-removal ruin) and construction::clustering::kmedoids::
+//! create_multi_tier_clusters, both on a real `Problem` built from the case.
 //! All data are integers (cost / distance matrices of integer-valued f64), so float arithmetic is exact.
 use serde_json::{json, Value};
-use std::collections::HashMap;
+use std::collections::{HashMap, HashSet};
+use std::sync::Arc;
+use vrp_core::construction::clustering::dbscan::create_job_clusters;
+use vrp_core::construction::clustering::kmedoids::create_multi_tier_clusters;
+use vrp_core::models::common::{Dimensions, Distance, Duration as TravelDuration, Location, Profile, TimeInterval, TimeSpan, TimeWindow, Timestamp};
+use vrp_core::models::problem::{
+    Costs, Job, JobIdDimension, MultiBuilder, Place, Single, TransportCost, TravelTime, Vehicle,
+    VehicleDetail, VehicleIdDimension, VehiclePlace,
+};
+use vrp_core::models::solution::Route;
+use vrp_core::models::{Problem, ProblemBuilder};
 use std::panic::{catch_unwind, AssertUnwindSafe};
 use std::sync::atomic::{AtomicUsize, Ordering};
 use std::sync::mpsc::channel;
@@ -47,6 +60,138 @@ fn canon(map: &HashMap<usize, Vec<usize>>) -> Value {
         .collect();
     items.sort();
     Value::Array(items.into_iter().map(|(k, v)| json!([k, v])).collect())
+}
+
+/// routing data that depend on the profile: matrix `profile.index` (the last one for larger indices), row-major
+struct ProfiledMatrices {
+    size: usize,
+    dist: Vec<Vec<f64>>,
+    dur: Vec<Vec<f64>>,
+}
+
+impl ProfiledMatrices {
+    fn pick<'a>(&self, ms: &'a [Vec<f64>], profile: &Profile) -> &'a Vec<f64> {
+        &ms[profile.index.min(ms.len() - 1)]
+    }
+}
+
+impl TransportCost for ProfiledMatrices {
+    fn duration_approx(&self, profile: &Profile, from: Location, to: Location) -> TravelDuration {
+        self.pick(&self.dur, profile)[from * self.size + to]
+    }
+    fn distance_approx(&self, profile: &Profile, from: Location, to: Location) -> Distance {
+        self.pick(&self.dist, profile)[from * self.size + to]
+    }
+    fn duration(&self, route: &Route, from: Location, to: Location, _: TravelTime) -> TravelDuration {
+        self.duration_approx(&route.actor.vehicle.profile, from, to)
+    }
+    fn distance(&self, route: &Route, from: Location, to: Location, _: TravelTime) -> Distance {
+        self.distance_approx(&route.actor.vehicle.profile, from, to)
+    }
+    fn size(&self) -> usize {
+        self.size
+    }
+}
+
+fn matrices_of(v: &Value, size: usize) -> Vec<Vec<f64>> {
+    v.as_array()
+        .expect("matrices")
+        .iter()
+        .map(|m| {
+            let flat: Vec<f64> = matrix_of(m).into_iter().flatten().map(|x| x as f64).collect();
+            assert_eq!(flat.len(), size * size);
+            flat
+        })
+        .collect()
+}
+
+fn place_at(loc: &Value) -> Place {
+    Place {
+        location: if loc.is_null() { None } else { Some(usize_of(loc)) },
+        duration: 0.,
+        times: vec![TimeSpan::Window(TimeWindow::max())],
+    }
+}
+
+fn single_at(id: Option<usize>, locs: &Value) -> Single {
+    let mut dimens = Dimensions::default();
+    if let Some(id) = id {
+        dimens.set_job_id(format!("{id}"));
+    }
+    Single { places: locs.as_array().expect("places").iter().map(place_at).collect(), dimens }
+}
+
+/// {"places": [loc|null, ..]} = single job with these alternative places; {"multi": [[loc|null, ..], ..]} = multi job
+fn cluster_job_of(id: usize, v: &Value) -> Job {
+    if v["multi"].is_null() {
+        Job::Single(Arc::new(single_at(Some(id), &v["places"])))
+    } else {
+        let mut b = MultiBuilder::default().id(&format!("{id}"));
+        for locs in v["multi"].as_array().unwrap() {
+            b = b.add_job(single_at(None, locs));
+        }
+        b.build_as_job().unwrap()
+    }
+}
+
+fn id_of(job: &Job) -> usize {
+    job.dimens().get_job_id().expect("job id").parse().expect("numeric job id")
+}
+
+fn int_cost(c: f64) -> Value {
+    assert!(c.fract() == 0. && c.abs() < 9.0e15, "non-integer neighbour cost {c}");
+    json!(c as i64)
+}
+
+fn sorted_ids(cluster: &HashSet<Job>) -> Vec<usize> {
+    let mut ids: Vec<usize> = cluster.iter().map(id_of).collect();
+    ids.sort();
+    ids
+}
+
+fn cluster_problem(case: &Value) -> (Arc<Problem>, Arc<dyn TransportCost>) {
+    let size = usize_of(&case["size"]);
+    let transport: Arc<dyn TransportCost> = Arc::new(ProfiledMatrices {
+        size,
+        dist: matrices_of(&case["dist"], size),
+        dur: matrices_of(&case["dur"], size),
+    });
+    let jobs: Vec<Job> = case["jobs"].as_array().unwrap().iter().enumerate().map(|(i, j)| cluster_job_of(i, j)).collect();
+    let vehicles: Vec<Vehicle> = case["vehicles"]
+        .as_array()
+        .unwrap()
+        .iter()
+        .enumerate()
+        .map(|(i, v)| {
+            let mut dimens = Dimensions::default();
+            dimens.set_vehicle_id(format!("v{i}"));
+            let start = VehiclePlace {
+                location: usize_of(&v["start"]),
+                time: TimeInterval { earliest: Some(0.), latest: None },
+            };
+            Vehicle {
+                profile: Profile::new(usize_of(&v["profile"]), None),
+                costs: Costs {
+                    fixed: 0.,
+                    per_distance: i64_of(&v["per_distance"]) as f64,
+                    per_driving_time: i64_of(&v["per_time"]) as f64,
+                    per_waiting_time: 0.,
+                    per_service_time: 0.,
+                },
+                dimens,
+                details: vec![VehicleDetail { start: Some(start), end: None }],
+            }
+        })
+        .collect();
+    let goal = vh::core::build_goal("cost", transport.clone()).unwrap();
+    let problem = ProblemBuilder::default()
+        .add_jobs(jobs.into_iter())
+        .add_vehicles(vehicles.into_iter())
+        .with_goal(goal)
+        .with_transport_cost(transport.clone())
+        .build()
+        .unwrap();
+    (Arc::new(problem), transport)
 }
 
 fn with_pool<R: Send>(threads: usize, f: impl FnOnce() -> R + Send) -> R {
@@ -129,6 +274,66 @@ pub fn run_case(case: &Value) -> Value {
                 create_hierarchical_kmedoids(&pts, tiers, move |a: &usize, b: &usize| dist[*a][*b] as f64)
             });
             json!({ "tiers": res.iter().map(canon).collect::<Vec<_>>() })
+        }
+        "jobclusters" => {
+            // a real Problem (Jobs::new builds the neighbour index and the solver's clusters)
+            let (problem, _) = cluster_problem(case);
+            let all = problem.jobs.all();
+            let by_id: HashMap<usize, Job> = all.iter().map(|j| (id_of(j), j.clone())).collect();
+            // the neighbourhoods exactly as the public API hands them to the wrapper, for every fleet profile
+            let rows: Vec<Value> = problem
+                .fleet
+                .profiles
+                .iter()
+                .map(|profile| {
+                    Value::Array(
+                        (0..all.len())
+                            .map(|id| {
+                                Value::Array(
+                                    problem
+                                        .jobs
+                                        .neighbors(profile, &by_id[&id], Timestamp::default())
+                                        .map(|(j, c)| json!([id_of(j), int_cost(c)]))
+                                        .collect(),
+                                )
+                            })
+                            .collect(),
+                    )
+                })
+                .collect();
+            let selected: Vec<Job> = usizes_of(&case["order"]).into_iter().map(|id| by_id[&id].clone()).collect();
+            let min_points = if case["minp"].is_null() { None } else { Some(usize_of(&case["minp"])) };
+            let epsilon = if case["eps"].is_null() {
+                None
+            } else {
+                Some(i64_of(&case["eps"][0]) as f64 / i64_of(&case["eps"][1]) as f64)
+            };
+            // the call shape of vrp-cli `analyze clusters` (and of Jobs::new)
+            let res = create_job_clusters(&selected, &problem.fleet, min_points, epsilon, |profile, job| {
+                problem.jobs.neighbors(profile, job, Timestamp::default())
+            });
+            let profiles: Vec<usize> = problem.fleet.profiles.iter().map(|p| p.index).collect();
+            let (clusters, err) = match res {
+                Ok(cs) => (cs.iter().map(sorted_ids).collect::<Vec<_>>(), Value::Null),
+                Err(e) => (vec![], json!(e.to_string())),
+            };
+            // what the cluster-removal ruin reads: Jobs::new -> create_job_clusters(jobs, fleet, Some(3), None, index neighbours)
+            let solver: Vec<Vec<usize>> = problem.jobs.clusters().iter().map(sorted_ids).collect();
+            json!({ "rows": rows, "profiles": profiles, "clusters": clusters, "err": err, "solver_clusters": solver })
+        }
+        "multitier" => {
+            let size = usize_of(&case["size"]);
+            let transport = ProfiledMatrices {
+                size,
+                dist: matrices_of(&case["dist"], size),
+                dur: matrices_of(&case["dist"], size),
+            };
+            let profile = Profile::new(usize_of(&case["profile"]), None);
+            let res = with_pool(1, || create_multi_tier_clusters(profile, &transport));
+            match res {
+                Ok(tiers) => json!({ "tiers": tiers.iter().map(canon).collect::<Vec<_>>() }),
+                Err(e) => json!({ "err": e.to_string() }),
+            }
         }
         _ => panic!("unknown op"),
     }
